@@ -1,14 +1,45 @@
 """C06: regions (Region.tla / RegionTrace.tla, exact volumes from MeshOps.tla)."""
 
 
+def reload(ctx):
+    """reload part: cache coherence of regions w.r.t. mesh updates (Reload.tla), programs exported by ReloadMC, executed steps judged
+    by ReloadTrace"""
+    import os
+    from ..core import MachineryError
+    thorough = ctx.tier == "thorough"
+    r = ctx.tlc_model("ReloadTrace", "ReloadRef.cfg", workers=1, env={"TRACE_FILE": "/dev/null", "VERDICT_FILE": "/dev/null"})
+    ctx.require_model_ok(r)
+    if thorough:
+        r = ctx.tlc_model("ReloadMC", "ReloadMC4.cfg", workers=16, timeout=3600)        # theorems only, depth 4
+        ctx.require_model_ok(r)
+    r = ctx.tlc("ReloadMC", "ReloadMC3.cfg" if thorough else "ReloadMC.cfg", workers=1, timeout=1800, tag="reloadprograms")
+    if r["rc"] != 0:
+        raise MachineryError("ReloadMC failed rc=%s\n%s" % (r["rc"], r["out"][-3000:]))
+    lines = [ln for ln in r["out"].splitlines() if "PROGRAM|" in ln]
+    sim = ctx.tlc("ReloadMC", "ReloadSim.cfg", workers=1, timeout=1800, tag="reloadsim",
+                  simulate="num=%d" % (100 if thorough else 20), extra_args=["-depth", "12", "-seed", str(2000 + ctx.seed)])
+    if sim["rc"] != 0:
+        raise MachineryError("ReloadMC simulation failed rc=%s\n%s" % (sim["rc"], sim["out"][-3000:]))
+    lines += [ln for ln in sim["out"].splitlines() if "PROGRAM|" in ln]
+    path = os.path.join(ctx.work, "reloadprograms.txt")
+    with open(path, "w") as f:
+        f.write("\n".join(lines) + "\n")
+    ctx.extra["reload_programs_exported"] = len(set(lines))
+    shards = ctx.drive("d06r", nshards=16, extra=["--opt", "programs=%s" % path + (";limit=20000" if thorough else "")], name="d06r")
+    ctx.drift_clauses |= {"EnabledInModel", "RegionsConform", "FlagsConform", "MeshBindingConforms", "GeometryVersionConforms",
+                          "HessianVersionConforms", "PointsVersionConforms"}
+    ctx.validate("ReloadTrace", shards)
+
+
 def run(ctx):
     r = ctx.tlc_model("RegionTrace", "RegionRef.cfg", workers=1, env={"TRACE_FILE": "/dev/null", "VERDICT_FILE": "/dev/null"})
     ctx.require_model_ok(r)
     shards = ctx.drive("d06", nshards=16, timeout=7200)
     ctx.validate("RegionTrace", shards, heap="3g")
+    reload(ctx)
     ctx.require_clauses(["Positive", "VolumeSum", "RigidInvariance", "FamilyAgreement", "NegativeWarns", "ReproduceValue", "ReproduceGradient",
                          "ReproduceHessian", "PlaneStrainPadding", "AxiHoop", "DualConstantPerCell", "GramExact", "UniformEqualsGeneral",
-                         "AstypeCopy"])
+                         "AstypeCopy", "FreshAfterReload", "CachedArraysGenuine"])
     ctx.rule = ("12 volume templates x mesh (plain / affine lattice map / interior perturbation / curved) x polynomial coefficient sets "
                 "(degree <= element order on affine cells, <= 1 on distorted and curved cells; hessians where the template offers them), 6 boundary "
                 "templates, arbitrary-order Lagrange, constant/dual, plane-strain and axisymmetric field kinds, Gram exactness, uniform path, "
